@@ -125,3 +125,28 @@ package core
 //@ func (Field).Equals
 //@   pure
 //@   ensures val: result == (f.String() == o.String())
+
+// C07: the window a grouped query reads from its source. The group's asOf is the requested asOf (the source's when
+// none was requested); it is moved back only to guarantee one whole period when the window is shorter than the group's
+// resolution - never otherwise, so no stored period that ended at or before the requested asOf is aggregated.
+//@ func (*group).GetResolution
+//@   requires g != nil && g.source != nil
+//@   pureheap
+//@   ensures own: g.Resolution != 0 ==> result == g.Resolution
+//@   ensures inherited: g.Resolution == 0 ==> result == g.source.GetResolution()
+
+//@ func (*group).GetUntil
+//@   requires g != nil && g.source != nil
+//@   pureheap
+//@   ensures own: abs(g.Until) != 0 ==> result == g.Until
+//@   ensures inherited: abs(g.Until) == 0 ==> result == g.source.GetUntil()
+
+//@ func (*group).GetAsOf
+//@   let want = abs(g.AsOf) != 0 ? abs(g.AsOf) : abs(g.source.GetAsOf())
+//@   let u = abs(g.Until) != 0 ? abs(g.Until) : abs(g.source.GetUntil())
+//@   let r = g.Resolution != 0 ? g.Resolution : g.source.GetResolution()
+//@   requires g != nil && g.source != nil
+//@   requires times: normalAbs(want) && normalAbs(u) && r > 0 && r < 1152921504606846976
+//@   pureheap
+//@   ensures requested_asof_kept: u - want >= r ==> abs(result) == want
+//@   ensures at_least_one_period: u - want < r ==> abs(result) == u - r
